@@ -20,6 +20,21 @@ def life_key(formula, line, i):
     return "%s:%s%s" % (formula, r["what"], extra)
 
 
+def confirm_hang(work, binp, cases, case, d):
+    """run one schedule alone; True if it stalls again (no progress in real time)"""
+    one = os.path.join(d, "one_%d.ndjson" % case)
+    with open(cases) as fh:
+        for k, cl in enumerate(fh, 1):
+            if k == case:
+                open(one, "w").write(cl)
+                break
+    e = vlib.goenv()
+    e.update({"VERIF_CASES": one, "VERIF_TRACE": one + ".trace", "VERIF_SHARD": "0/1", "VERIF_SEED": str(vlib.SEED)})
+    p = subprocess.run([binp, "-test.run", "^TestVerifLifecycle$", "-test.timeout", "600s", "-test.count", "1"], cwd=vlib.REPO,
+                       env=e, stdout=subprocess.PIPE, stderr=subprocess.STDOUT, text=True)
+    return p.returncode != 0 and "verif: hang" in p.stdout
+
+
 def life_stage(work, res, tier, prefixes, replay=None):
     binp = vlib.build_harness(work)
     d = work.sub("life")
@@ -61,11 +76,19 @@ def life_stage(work, res, tier, prefixes, replay=None):
             if not os.path.exists(jp) or p["tries"] > 40:
                 raise Infra("lifecycle harness shard %d failed (rc=%d):\n%s" % (p["i"], rc, txt[-2500:]))
             case = int(open(jp).read().strip())
-            why = "deadlock" if "deadlock" in txt else ("panic" if "panic" in txt else "died")
+            why = "deadlock" if "deadlock" in txt else ("panic" if "panic" in txt else ("hang" if "verif: hang" in txt else "died"))
+            if why == "hang":
+                # a hang is only believed when the schedule hangs again on its own
+                if not confirm_hang(work, binp, cases, case, d):
+                    log("lifecycle harness shard %d stalled on schedule %d but the schedule completes on its own: "
+                        "no verdict from it; resuming" % (p["i"], case))
+                    p["resume"] = case
+                    pend.append(p)
+                    continue
             first = [l for l in txt.splitlines() if l.startswith("panic:") or "deadlock" in l]
             rec = {"ev": "LifeCase", "case": case, "final": "?", "selfState": "?", "leaveFlag": False, "lateSends": 0,
                    "goLeft": 0, "goStarted": 0,
-                   "results": [{"what": "process", "role": "whole", "gate": "", "res": "panic" if why != "deadlock" else "blocked",
+                   "results": [{"what": "process", "role": "whole", "gate": "", "res": "panic" if why not in ("deadlock", "hang") else "blocked",
                                 "err": (first[0] if first else why)[:160], "tookMs": 0, "timeoutMs": 0, "mayPanic": False,
                                 "parked": False, "parkedMs": 0, "waited": False, "signalable": False, "afterShutdown": False,
                                 "repeat": False, "nodeOps": 0, "stage": "?", "selfAfter": "?", "peerAlive": False, "leaving": False}]}
